@@ -345,3 +345,21 @@ Definition wf_render (s : schema) (vs : list cview) (h : heap) (found : list oid
                     | Some f => match sch_find s (o_type f) with Some _ => true | None => false end
                     | None => false end) found
   && forallb (fun p => obj_ok vs h (snd p)) h.
+
+(* ---------------------------------------------------------------------------------------------- content changes *)
+(* repr(float): injective on the tokens and never the reserved text *)
+Definition float_contract (ff : flt -> string) : Prop := inj ff /\ forall x, ff x <> NULL.
+(* two primitive values (or None) of one feature that are rendered differently: same kind and different payload, or None
+   against a value; a string equal to the reserved text "<NULL>" is rendered like None and is excluded *)
+Definition prim_differs (v v' : val) : Prop :=
+  match v, v' with
+  | VInt a, VInt b => a <> b
+  | VFlt a, VFlt b => a <> b
+  | VBool a, VBool b => a <> b
+  | VStr a, VStr b => a <> b
+  | VNone, VInt _ | VInt _, VNone | VNone, VFlt _ | VFlt _, VNone | VNone, VBool _ | VBool _, VNone => True
+  | VNone, VStr s | VStr s, VNone => s <> NULL
+  | _, _ => False
+  end.
+Fixpoint paren_free (s : string) : bool :=
+  match s with EmptyString => true | String c r => negb (Ascii.eqb c "("%char) && paren_free r end.
